@@ -173,10 +173,7 @@ func ipv4Range(x, lo, hi uint32) {
 	p, pv, st := mon.Guard(func() {
 		// the prefix lengths carried by the three addresses have no part in a range test: they
 		// vary independently of one another from case to case
-		h := int(x*2654435761 + lo*40503 + hi)
-		if h < 0 {
-			h = -h
-		}
+		h := int((x*2654435761 + lo*40503 + hi) & 0x7FFFFFFF) // non-negative also where int is 32 bits wide
 		mb := [][3]int{{0, 32, 8}, {24, 24, 24}, {24, 32, 32}, {32, 24, 8}, {8, 16, 32}, {24, 8, 0}, {h % 33, (h / 33) % 33, (h / 1089) % 33}}
 		m1, m2 := mb[h%len(mb)], mb[(h/7)%len(mb)]
 		got = lib4(x, m1[0]).IsInRange(lib4(lo, m1[1]), lib4(hi, m1[2]))
